@@ -55,7 +55,7 @@ def run_demo(seed, tree, work, tag, legacy):
         for script in ("demo.sh", "run_demo.sh"):
             sp = os.path.join(seed, script)
             if os.path.exists(sp):
-                rc, out = sh(["sh", sp, tree], cwd=work)
+                rc, out = sh(["bash", sp, tree], cwd=work)
                 return rc == 0, out[-1500:]
         return False, "no demonstration found"
     demo = os.path.join(seed, "demo_test.go")
